@@ -15,6 +15,7 @@ import (
 	"strings"
 	"testing/iotest"
 
+	"github.com/openacid/low/iohelper"
 	"github.com/openacid/low/pbcmpl"
 
 	"verif/gen"
@@ -47,7 +48,7 @@ func init() {
 		Level:  "fault_enumeration",
 		Rule: "E3 fault enumeration: (truncation) every frame of a 40-frame alphabet (4 message kinds × body lengths 0..200) × EVERY cut point k < len(frame) × reader chunkings {whole, 1 byte at a time, and every chunking with ≤1 (thorough ≤2) extra deviations: short read at any byte, data together with io.EOF, one empty read}, the same cuts through 11 standard-library reader types (bytes.Reader, bytes.Buffer, strings.Reader, bufio.Reader of 16/32/64/4096 bytes, io.LimitedReader, io.SectionReader, iotest.OneByteReader, iotest.DataErrReader - code may special-case a reader's dynamic type), and four frames with bodies of 1..3 MiB × cut points within ±1 of m·2^p (p = 9..22, m = 1..3, measured from the frame and from the body start) × {whole, 4 KiB, 64 KiB chunks}: never success, n = k, cause io.EOF for k=0, io.ErrUnexpectedEOF otherwise, either one for k=32; " +
 			"(corrupt header, in a memory-limited worker process) header-size field × body-size field alphabets (0, len±1, 2^31, 2^32, 2^40, 2^47, 2^48, 2^62, 2^63-1, 2^63, 2^63+1, 2^64-1 …) × version bytes {ASCII, 0xff, NUL} × {0, 5, all} body bytes present: header size ≠ 32 ⇒ ErrInvalidHeaderSize after exactly 32 bytes; otherwise success iff the declared body is completely present; never a panic, never a dead process; ReadHeader on every prefix 0..40 of arbitrary bytes returns normally; " +
-			"(writer faults) every frame × EVERY byte budget k ≤ len(frame) × {partial write with error, refusal with count 0, full count TOGETHER with the error on the call that ends exactly at the budget (one-shot; later bytes are recorded)}: Marshal returns that error and the count of accepted bytes, which are exactly frame[:count] - also for 18 longer frames (bodies of 4000..70000 bytes and 1 MiB+1) with budgets at both ends and around 512, 4096, 8192, 65536, 2^20 measured from the start, from the body start and from the end; (read errors) a non-EOF error injected at every offset, alone or together with the last bytes, under whole and 1-byte chunkings and after every single chunking deviation (short read at any byte, one empty read): no success unless the frame was delivered completely, n = bytes delivered. A case is one (frame, fault point, mode); non-trivial when the fault point is inside the frame (0 < k < len).",
+			"(writer faults) every frame × EVERY byte budget k ≤ len(frame) × {partial write with error, refusal with count 0, full count TOGETHER with the error on the call that ends exactly at the budget (one-shot; later bytes are recorded)}: (corrupt headers also through three readers that are io.Seekers - iohelper.AtToReader and an over-long io.SectionReader, which report more remaining bytes than they can deliver, and bytes.Reader) Marshal returns that error and the count of accepted bytes, which are exactly frame[:count] - also for 18 longer frames (bodies of 4000..70000 bytes and 1 MiB+1) with budgets at both ends and around 512, 4096, 8192, 65536, 2^20 measured from the start, from the body start and from the end; (read errors) a non-EOF error injected at every offset, alone or together with the last bytes, under whole and 1-byte chunkings and after every single chunking deviation (short read at any byte, one empty read): no success unless the frame was delivered completely, n = bytes delivered. A case is one (frame, fault point, mode); non-trivial when the fault point is inside the frame (0 < k < len).",
 		Assumptions: []string{
 			"for a body-size field ≥ 2^63 (no valid frame can have such a body) only 'returns normally and does not succeed' is required; for smaller declared sizes that exceed the stream the truncation clause applies (n = bytes available)",
 			"the worker process runs under `ulimit -v`; a worker that dies is reported for the case it announced before executing it",
@@ -299,6 +300,10 @@ type c07Corrupt struct {
 	Ver    string
 	Avail  int
 	Desc   string
+	// Reader: "" = the scripted reader (which also reports how many bytes were pulled); otherwise a
+	// reader that is an io.Seeker - an implementation may ask it how much is left, and some answer
+	// with more than they can deliver (the library's own AtToReader, an over-long io.SectionReader)
+	Reader string
 }
 
 const c07Body = 7
@@ -312,15 +317,23 @@ func c07CorruptCases() []c07Corrupt {
 		for _, bs := range bss {
 			for _, v := range vers {
 				for _, av := range []int{0, 5, c07Body} {
-					out = append(out, c07Corrupt{hs, bs, v, av, fmt.Sprintf("hs=%d bs=%d ver=%x body_bytes_present=%d", hs, bs, v, av)})
+					out = append(out, c07Corrupt{hs, bs, v, av, fmt.Sprintf("hs=%d bs=%d ver=%x body_bytes_present=%d", hs, bs, v, av), ""})
 				}
+			}
+		}
+	}
+	// the same declared sizes through readers that are io.Seekers
+	for _, rk := range c07SeekReaders {
+		for _, bs := range bss {
+			for _, av := range []int{0, 5, c07Body} {
+				out = append(out, c07Corrupt{32, bs, "1.0.0", av, fmt.Sprintf("hs=32 bs=%d ver=312e302e30 body_bytes_present=%d reader=%s", bs, av, rk), rk})
 			}
 		}
 	}
 	// declared sizes beyond the stream with MiB-sized amounts of body actually present
 	for _, bs := range []uint64{3 << 20, 1 << 31, 1 << 40, 1<<63 - 1} {
 		for _, av := range []int{1<<20 - 1, 1 << 20, 1<<20 + 1, 2 << 20, 2<<20 + 1} {
-			out = append(out, c07Corrupt{32, bs, "1.0.0", av, fmt.Sprintf("hs=32 bs=%d ver=312e302e30 body_bytes_present=%d", bs, av)})
+			out = append(out, c07Corrupt{32, bs, "1.0.0", av, fmt.Sprintf("hs=32 bs=%d ver=312e302e30 body_bytes_present=%d", bs, av), ""})
 		}
 	}
 	return out
@@ -337,7 +350,32 @@ func c07CorruptBytes(cc c07Corrupt) []byte {
 	return append(h, c06Payload(c07Body)[:cc.Avail]...)
 }
 
+var c07SeekReaders = []string{"iohelper.AtToReader", "io.SectionReader/over-long", "bytes.Reader"}
+
+func c07SeekReader(kind string, data []byte) io.Reader {
+	switch kind {
+	case "iohelper.AtToReader":
+		return iohelper.AtToReader(bytes.NewReader(data), 0)
+	case "io.SectionReader/over-long":
+		return io.NewSectionReader(bytes.NewReader(data), 0, 1<<62)
+	}
+	return bytes.NewReader(data)
+}
+
+// c07StripPulled drops the "pulled=" part (only the scripted reader can observe it).
+func c07StripPulled(s string) string {
+	if i := strings.Index(s, " pulled="); i >= 0 {
+		return s[:i]
+	}
+	return s
+}
+
 func c07CorruptWant(cc c07Corrupt) string {
+	if cc.Reader != "" {
+		c2 := cc
+		c2.Reader = ""
+		return c07StripPulled(c07CorruptWant(c2))
+	}
 	switch {
 	case cc.HS != 32:
 		return "n=32 err=ErrInvalidHeaderSize pulled=32"
@@ -360,7 +398,12 @@ func c07CorruptGot(cc c07Corrupt) (got string) {
 	data := c07CorruptBytes(cc)
 	r := &c06Reader{data: data, env: mc.NewEnv(nil)}
 	m := &c06Legacy{}
-	n, _, err := pbcmpl.Unmarshal(r, m)
+	var rd io.Reader = r
+	if cc.Reader != "" {
+		rd = c07SeekReader(cc.Reader, data)
+		defer func() { got = c07StripPulled(got) }()
+	}
+	n, _, err := pbcmpl.Unmarshal(rd, m)
 	name := errName(err)
 	if cc.HS == 32 && cc.BS >= 1<<63 {
 		if err == nil {
